@@ -148,6 +148,8 @@ def apply_edit(conc, loads, d, op):
             blk[plural(op["type"])].append(obj)
     elif k == "removechild":
         del blk[op["key"]][op["index"] - 1]
+    elif k == "aliaschild":
+        blk[op["key"]].append(blk[op["key"]][op["index"] - 1])
     elif k == "reverse":
         blk[op["key"]].reverse()
     elif k == "update":
